@@ -20,6 +20,12 @@ Definition show_rate (r : rate am) : string :=
   sa (rt_term_amount r) ++ " " ++ show_nat (rt_term_unit r) ++ " " ++ sa (rt_per_unit_multiple r) ++ " " ++ show_nat (rt_per_unit r).
 End Show.
 
+(** constants of a generated definition: NAME=<iteration index of its variant> *)
+Definition show_consts (e : cat_entry SIPrefix) : string :=
+  show_sep (fun cv => string_of_ustr (fst cv) ++ "=" ++
+              match index_of (snd cv) (gd_VARIANTS (ce_gen e)) with Some i => show_nat i | None => "?" end)
+           " " (gd_consts (ce_gen e)).
+
 (** core's provided comparison operators in terms of eq / partial_cmp *)
 Definition ocmp_lt (o : option comparison) : bool := match o with Some Lt => true | _ => false end.
 Definition ocmp_le (o : option comparison) : bool := match o with Some Lt | Some Eq => true | _ => false end.
